@@ -8,7 +8,7 @@
 //!       -> ok none pts=<n>:<digest> | ok <x> <y> <z> pts=<n>:<digest> | panic <site>
 //!          (`pts`: number and FNV-1a digest of the space points handed to `cluster_spacepoints`)
 //!   vertexx <pad response> | w<idx>:<deconvolved input> … | p<col>.<row>:<samples> …
-//!       -> the same answer for the chain downstream of the wire deconvolution: the w-tokens carry what
+//!       -> the same answer (`exact` in place of `ok`) for the chain downstream of the wire deconvolution: the w-tokens carry what
 //!          `wire_range_deconvolution` returned for the event's ranges (as `avalanchesx` of c13b.rs)
 //!   an `ok` answer ends in ` dust=<k>` when k > 0 avalanches have a wire amplitude below 1e-9 of
 //!   the event's largest
@@ -417,7 +417,8 @@ fn impl_answers(ws: &Wires, ps: &Pads, in_domain: bool) -> Answers {
     let exact = st.inputs.as_ref().map(|inputs| {
         let mut req = format!("vertexx {}", flist(&tables().pad_resp));
         push_signals(&mut req, inputs, ps);
-        (req, vertex_line.clone())
+        // `exact`: this line is compared without any tolerance
+        (req, if let Some(rest) = vertex_line.strip_prefix("ok ") { format!("exact {rest}") } else { vertex_line.clone() })
     });
     let o = |x: Option<usize>| x.map(|n| n.to_string()).unwrap_or_else(|| "-".into());
     let sizes = st.clusters.as_ref().map(|c| c.iter().map(|n| n.to_string()).collect::<Vec<_>>().join(",")).unwrap_or_default();
